@@ -31,6 +31,8 @@ type Net struct {
 	maxDelay  time.Duration
 	reorderPp int32 // per mille of batches swapped with the next one of the connection
 	stats     NetStats
+	// chunkDelay: every snapshot chunk dwells that long on the wire (a slow link), nanoseconds
+	chunkDelay int64
 	// wire mode (wire.go)
 	wireFaults WireFaults
 	wire       WireStats
@@ -77,6 +79,9 @@ func (n *Net) SetLoss(dropPpm, delayPpm, reorderPerMille int) {
 	atomic.StoreInt32(&n.delayPpm, int32(delayPpm))
 	atomic.StoreInt32(&n.reorderPp, int32(reorderPerMille))
 }
+
+// SetChunkDelay makes every snapshot chunk dwell on the wire.
+func (n *Net) SetChunkDelay(d time.Duration) { atomic.StoreInt64(&n.chunkDelay, int64(d)) }
 
 // Cut blocks traffic from -> to. failConnection makes sends fail (the real
 // transport then tears the connection down and reports Unreachable) instead
@@ -382,6 +387,13 @@ func (c *ssConn) Close() {}
 
 func (c *ssConn) SendChunk(chunk pb.Chunk) error {
 	n := c.t.net
+	if d := atomic.LoadInt64(&n.chunkDelay); d > 0 {
+		select {
+		case <-time.After(time.Duration(d)):
+		case <-c.t.stopc:
+			return errConn
+		}
+	}
 	if blocked, _ := n.linkState(c.t.addr, c.to); blocked {
 		n.mu.Lock()
 		n.stats.ChunksFailed++
